@@ -23,7 +23,8 @@ FLOORS = {
     "C04": {
         "T1": 13,
         "T2": 3,
-        "T5": 2
+        "T5": 2,
+        "T10": 1
     },
     "C05": {
         "S1": 1,
@@ -56,7 +57,8 @@ FLOORS = {
         "E2": 3,
         "T4": 1,
         "DL1": 1,
-        "F1": 1
+        "F1": 1,
+        "E7": 1
     },
     "C10": {
         "IDX": 4,
@@ -355,6 +357,7 @@ def c04(prog, rep):
     T.rule_t7(prog, rep)
     T.rule_t7b(prog, rep)
     T.rule_t8(prog, rep)
+    T.rule_t10(prog, rep)
     o = T.rule_t1(prog, rep, rid='T1')
     T.rule_t2(prog, rep, o)
     from . import escape as E
@@ -384,6 +387,8 @@ def c05(prog, rep):
     CH.rule_s7_fresh_cursor(prog, rep, [(CH.UNIT, 'qhashtbl_getnext', 1)])
     from . import bufrules as BW
     BW.rule_fmt_complete(prog, rep, [CH.UNIT])
+    from . import tree as T
+    T.rule_t8(prog, rep, units=[CH.UNIT], any_size=True)    # qhashtbl accepts empty values: a NULL copy of one is not ENOMEM
     rep.explanation = (
         'Sibling-agreement and protocol rules on qhashtbl.c: S1 put/get/remove compute the chain slot from the same closed '
         'expression (hash function, length argument, modulus field, obtained by expanding local definitions) and the walk resumes '
@@ -505,6 +510,8 @@ def c09(prog, rep):
     DL.rule_link(prog, rep, LR.LIST)
     from . import bufrules as BW
     BW.rule_fmt_complete(prog, rep, ['src/containers/qgrow.c'])
+    LR.rule_e7(prog, rep)
+    LR.rule_e8(prog, rep)
     rep.explanation = (
         'E1: through the method table, every queue insert variant (push/pushstr/pushint) resolves to one list end and every '
         'remove/peek variant (pop*/get*) to the opposite end (FIFO); every stack variant to the same end (LIFO); every grow add '
